@@ -98,6 +98,13 @@ func (cw *CertWatcher) Start(ctx context.Context) error {
 		}
 	}
 
+	// The files may have changed between the initial load in New and the
+	// watches added above; such a change produces no event. Load once more
+	// before events are consumed, so an update made in that window is served.
+	if err := cw.ReadCertificate(); err != nil {
+		logf("error re-reading certificate: %s", err)
+	}
+
 	go cw.Watch()
 
 	// Block until the context is done.
